@@ -209,3 +209,30 @@ pub fn write_pins(a: &Args) {
     d.insert("C2".into(), json!(digest(&C2Code::new().h())));
     std::fs::write(format!("{}/ccsds.json", a.out), serde_json::to_string_pretty(&Value::Object(d)).unwrap()).unwrap();
 }
+
+/// Oracle qualification (./check --selftest): the harness oracles used on large matrices, on TLC-sized inputs,
+/// so that TLC can compare them with the declarative definitions (GF2!Rank, Tanner!Girth).
+pub fn generate_selftest(a: &Args) {
+    let mut out = Out::create(&a.out);
+    let mut rng = Rng::new(a.seed ^ 0x5E1F);
+    for i in 0..600 {
+        let nr = 1 + rng.below(5);
+        let nc = 1 + rng.below(6);
+        let dens = [20u64, 40, 60, 80][i % 4];
+        let rows: Vec<Vec<usize>> = (0..nr).map(|_| (0..nc).filter(|_| rng.coin(dens, 100)).collect()).collect();
+        let h = crate::decoders::matrix(&rows, nc);
+        out.new_case();
+        let w = six_cycle(&h);
+        out.ev("Oracle", "ok", json!({"nr": nr, "nc": nc, "rows": rows, "rank": rank_bitpacked(&rows, nc), "four": has_four_cycle(&h), "cyc6": w.len() == 6,
+            "lrank": crate::linalg2::rank(&crate::linalg2::dense(&rows, nc))}));
+    }
+    // box-plus oracle against the direct tanh product in the well-conditioned range
+    for _ in 0..400 {
+        let d = 2 + rng.below(5);
+        let xs: Vec<f64> = (0..d).map(|_| rng.gauss() * 2.0).collect();
+        let direct = 2.0 * xs.iter().map(|x| (x / 2.0).tanh()).product::<f64>().atanh();
+        out.new_case();
+        out.ev("BoxPlus", "ok", json!({"d": d, "err_cb": crate::arith::cb(crate::arith::boxplus(&xs) - direct)}));
+    }
+    out.finish();
+}
